@@ -280,6 +280,8 @@ def collect(tier, seed, n, stream="pandas", gen=None, orders=None, nproc=16):
     gen = gen or G.gen_column
     recipes = [gen(rng) for _ in range(n)]
     if stream == "pandas":
+        # long columns (>= 1000 rows) reach code paths short ones cannot (sampling)
+        recipes = [G.gen_long_column(rng) for _ in range(16 if tier == "quick" else 200)] + recipes
         # minimised past failures and the witnesses of the known findings run first
         cp = os.path.join(os.path.dirname(os.path.abspath(__file__)), "..", "corpus", "pandas.json")
         if os.path.exists(cp):
